@@ -142,8 +142,9 @@ def behaviours(out):
     return res
 
 
-def tlc_generate(module, cfg, mode, num=100, depth=40, timeout=600, tag="gen"):
-    """mode 'sim': random simulation; mode 'bfs': bounded exhaustive / witness search"""
+def tlc_generate(module, cfg, mode, num=100, depth=40, timeout=600, tag="gen", allow_empty=False):
+    """mode 'sim': random simulation; mode 'bfs': bounded exhaustive / witness search
+    (a generator that yields no behaviour at all is a tool error: the replay would be vacuous)"""
     if mode == "sim":
         extra = ["-simulate", "num=%d" % num, "-depth", str(depth), "-seed", str(seed())]
         out = tlc_raw(module, cfg, extra=extra, workers=1, timeout=timeout, tag=tag)
@@ -152,7 +153,10 @@ def tlc_generate(module, cfg, mode, num=100, depth=40, timeout=600, tag="gen"):
     st = tlc_stats(out)
     if st["error"]:
         raise ToolError("TLC error while generating from %s/%s: %s" % (module, cfg, st["error"]))
-    return behaviours(out)
+    bs = behaviours(out)
+    if not bs and not allow_empty:
+        raise ToolError("TLC generated no behaviour from %s/%s (vacuous generator: bounds or dump condition unreachable)" % (module, cfg))
+    return bs
 
 
 def tlc_validate(module, cfg, trace_path, timeout=900, tag="tv"):
